@@ -129,6 +129,7 @@ func importSnapshotToDatastoreWithTestingPowerTableFrequency(ctx context.Context
 		cs.powerTableFrequency = testingPowerTableFrequency
 	}
 	var latestCert *certs.FinalityCertificate
+	var prevPowerTableCid cid.Cid
 	ptm := certs.PowerTableArrayToMap(header.InitialPowerTable)
 	for i := header.FirstInstance; ; i += 1 {
 		certBytes, err := readSnapshotBlockBytes(snapshot)
@@ -160,15 +161,25 @@ func importSnapshotToDatastoreWithTestingPowerTableFrequency(ctx context.Context
 			return err
 		}
 
-		if (cert.GPBFTInstance+1)%cs.powerTableFrequency == 0 {
+		// Every certificate must reproduce the power table it commits to, otherwise wrong
+		// deltas that cancel out before the next checkpoint would go unnoticed. Recompute
+		// the table CID whenever the table may have changed (or must be stored); an empty
+		// delta must commit to the same table as the previous certificate.
+		checkpoint := (cert.GPBFTInstance+1)%cs.powerTableFrequency == 0
+		if checkpoint || len(cert.PowerTableDelta) > 0 || !prevPowerTableCid.Defined() {
 			pt := certs.PowerTableMapToArray(ptm)
 			if err = checkPowerTable(pt, cert.SupplementalData.PowerTable); err != nil {
 				return err
 			}
-			if err := cs.putPowerTable(ctx, cert.GPBFTInstance+1, pt); err != nil {
-				return err
+			if checkpoint {
+				if err := cs.putPowerTable(ctx, cert.GPBFTInstance+1, pt); err != nil {
+					return err
+				}
 			}
+		} else if cert.SupplementalData.PowerTable != prevPowerTableCid {
+			return fmt.Errorf("new power table differs from expected power table: %s != %s", prevPowerTableCid, cert.SupplementalData.PowerTable)
 		}
+		prevPowerTableCid = cert.SupplementalData.PowerTable
 	}
 
 	if latestCert == nil {
